@@ -39,3 +39,15 @@ PLANS['C19'] = dict(
          'changed after the first proxy query (warm per-class cache) and some MRO has >= 3 classes.',
     assumptions=['C01 reference model', 'adapter selection order read from providedBy(proxy).__sro__ after it was validated against the bounds'],
 )
+
+
+PLANS['C20'] = dict(
+    engine='algebra', level='exploration', jobs=lambda tier: both(tier, (4, 120), (8, 1500)),
+    minimums=lambda t: {'pairs': 5000, 'pairs_A_extends_B': 300, 'pairs_B_extends_A': 300, 'noLongerProvides': 100},
+    rule='Declarations built from arbitrarily nested argument sequences (tuples, lists, Declarations, class '
+         'specifications, duplicates) over generated interface DAGs; for every declaration: iteration, membership, '
+         'flattened(); for every ordered pair (plus single-interface operands): A-B, A+B and operand immutability, '
+         'against list algebra over DFS reachability.  evaluations = oracle comparisons.  Non-trivial: the world has a '
+         'pair of operands related by extension; distinct = distinct (length, nesting depth, ancestor-count profile).',
+    assumptions=['A+B: a new element of B that extends only an earlier new element of B may sit on either side (DESIGN 3.20)'],
+)
